@@ -21,7 +21,16 @@ SCHEMAS = {
     43: "UpdateKeysThreshold", 44: "AccessStructure", 45: "HigherLevelAccessStructure", 46: "AuthorizationsV0",
     47: "RootUpdate", 48: "Level1Update", 49: "ArInfo",
     50: "Payload (all variants but InitContract/Update)", 51: "UpdatePayload (all variants but Protocol)", 52: "BlockItem<EncodedPayload> (all tags)",
+    # Chain/ChainSchemasAll.v
+    53: "Payload (ALL 22 variants)", 54: "AccountTransaction<Payload> (all variants)", 55: "InitContractPayload", 56: "UpdateContractPayload",
+    57: "OwnedContractName", 58: "OwnedReceiveName", 59: "OwnedParameter",
+    # Chain/ManualTie.v: terms regenerated from the hand-written impl bodies (translators/gen_manual_impls.py)
+    60: "impl:PreIdentityProof<IpPairing,ArCurve>", 61: "impl:BakerKeysPayload", 62: "impl:AddBakerPayload", 63: "impl:InitContractPayload",
+    64: "impl:UpdateContractPayload",
 }
+# sum types whose tag table must agree with the variants the harness constructs (exhaustive matches): schema id -> (enum, tags without a term)
+TAG_TABLES = {53: ("Payload", set()), 51: ("UpdatePayload", {1}), 52: ("BlockItem", set()), 47: ("RootUpdate", set()), 48: ("Level1Update", set()),
+              4: ("Address", set()), 20: ("DelegationTarget", set()), 19: ("OpenStatus", set()), 16: ("VerifyKey", set())}
 PAYLOAD_TAGS = {3, 4, 5, 6, 7, 8, 13, 17, 19, 21, 22, 24, 25, 26}
 UPDATE_TAGS = {2, 3, 4, 5, 6, 7, 8, 9, 10, 11, 12, 14, 15, 16, 17, 18, 19, 20, 21, 22, 23}
 # sum types of which only some variants have a schema term: variant tags that ARE modelled
@@ -143,6 +152,9 @@ def run(ctx):
         "opaque leaves (curve points, scalars, ed25519/VRF/BLS keys, dlog proofs) have abstract validity: the theorems hold for every "
         "validity oracle; the runner answers by membership in a pool of encodings produced and accepted by the implementation",
         "UTF-8 validity (UrlText) is an opaque kind whose runtime oracle is a hand-written validator in ocaml/driver_c05.ml",
+        "translator T4b (translators/gen_manual_impls.py) reads the straight-line hand-written impl Serial / impl Deserial bodies (sequences of "
+        "out.put(&self.f) / let f = source.get()?), checks that encoder and decoder field orders agree and regenerates their schema terms; "
+        "Chain/ManualTie.v proves them equal to the hand-written terms",
         "translator T4 (translators/gen_chain_schemas.py) regenerates the schema terms of the derive(Serialize)/derive(Serial) types from the Rust "
         "declarations on every run, reading the derive macro's rules (field order, u8 variant index, size_length attributes, one-field struct = "
         "its field, PhantomData dropped); types with hand-written impls enter through the MANUAL table (hand-written terms, tied by correspondence)",
@@ -164,10 +176,29 @@ def run(ctx):
     except Exception as ex:
         tie_broken = "translator gen_chain_schemas failed: %s" % ex
         ctx.log(tie_broken)
+    mrep = {}
+    if not tie_broken:
+        try:
+            spec2 = importlib.util.spec_from_file_location("gen_manual_impls", os.path.join(c.VERIF, "translators", "gen_manual_impls.py"))
+            gmi = importlib.util.module_from_spec(spec2)
+            spec2.loader.exec_module(gmi)
+            mrep = gmi.generate(c.REPO)
+        except Exception as ex:
+            tie_broken = "translator gen_manual_impls (hand-written impl bodies -> schema terms) failed: %s" % ex
+            ctx.log(tie_broken)
     S = dict(SCHEMAS)
     for k, v in trep.get("registered", {}).items():
         S[int(k)] = "derived:" + v
-    ctx.notes["translator"] = {k: trep.get(k) for k in ("translated", "fully_derived", "registered", "tied_equal", "tied_layout", "serial_only", "unsupported")}
+    ctx.notes["translator"] = {k: trep.get(k) for k in ("translated", "fully_derived", "registered", "tied_equal", "tied_layout", "serial_only", "unsupported",
+                                                        "parametric", "other_macro")}
+    ctx.notes["translator_counts"] = {"derive_types_translated": trep.get("translated"), "registered_for_correspondence": len(trep.get("registered", {})),
+                                      "derive_types_unsupported": len(trep.get("unsupported", {})), "unsupported": trep.get("unsupported"),
+                                      "bare_generic_wrappers_as_schema_functors": sorted(trep.get("parametric", {})),
+                                      "other_macro_not_in_scope": trep.get("other_macro"),
+                                      "hand_written_impl_pairs": mrep.get("impl_pairs"), "straight_line_impls_translated": mrep.get("straight_line_translated"),
+                                      "impls_tied_by_equality": mrep.get("tied_equal"), "impls_not_straight_line": mrep.get("not_simple"),
+                                      "impl_translation_errors": mrep.get("errors")}
+    ctx.notes["translator_impls"] = {k: mrep.get(k) for k in ("impl_pairs", "straight_line_translated", "tied_equal", "not_simple", "not_simple_list", "errors")}
     ok, info = c.coq_prove(ctx)
     proof_broken = None if ok else info
     if not ok:
@@ -230,6 +261,8 @@ def run(ctx):
     for (i, h, o) in list(cases):
         if o == "impl" and i in (27, 34, 35):
             cases.append(({27: 50, 34: 51, 35: 52}[i], h, "impl"))
+        if o == "impl" and i in (27, 28):
+            cases.append(({27: 53, 28: 54}[i], h, "impl"))
     # ---- (b') one or more VALUES of every variant of every hand-written sum type (exhaustive matches in the harness)
     n_rep = 3 if quick else 25
     rc, out = c.run_bin(binp, ["variants", ctx.seed, n_rep], timeout=3000)
@@ -251,17 +284,35 @@ def run(ctx):
     fixtures = [d for d in vlines if d.get("k") == "fixture"]
     nfix = 0
     for d in fixtures:
-        if d["name"] in name_to_id:
+        if d["name"].startswith("#"):
+            cases.append((int(d["name"][1:]), d["hex"], "impl"))
+            impl_ids.add(int(d["name"][1:]))
+            nfix += 1
+        elif d["name"] in name_to_id:
             cases.append((name_to_id[d["name"]], d["hex"], "impl"))
             impl_ids.add(name_to_id[d["name"]])
             nfix += 1
     ctx.notes["pipeline_fixtures"] = {"emitted": len(fixtures), "matched_to_generated_schema": nfix,
-                                      "unmatched": sorted({d["name"] for d in fixtures if d["name"] not in name_to_id})}
+                                      "unmatched": sorted({d["name"] for d in fixtures if d["name"] not in name_to_id and not d["name"].startswith("#")})}
     for d in vres:
         if not d["ok"]:
             variant_fail.append(d)
         elif d.get("id") is not None:
             cases.append((int(d["id"]), d["hex"], "variant"))
+    # ---- per-variant tie of the tag tables: the tags of the model's sum = the tags of the variants the harness constructs
+    #      (exhaustive matches without wildcard on the Rust side)
+    rc, tl = run_model(ctx, runner, pool, ["T %d" % i for i in sorted(TAG_TABLES)])
+    tagrep = {}
+    for i, l in zip(sorted(TAG_TABLES), tl):
+        en, missing_ok = TAG_TABLES[i]
+        model_tags = {int(x) for x in l.split()[1:]}
+        rust_tags = {int(d["hex"][:2], 16) for d in vres if d["enum"] == en and d["ok"] and d["hex"]}
+        tagrep[en] = {"model": sorted(model_tags), "rust": sorted(rust_tags), "rust_only_allowed": sorted(missing_ok)}
+        if vres and (rust_tags - missing_ok != model_tags or not (rust_tags - model_tags) <= missing_ok):
+            ctx.violation({"layer": "tag table", "enum": en, "schema_id": i, "model_tags": sorted(model_tags), "rust_tags": sorted(rust_tags)},
+                          "%s: variants constructed from the Rust enum have tags %s but the schema term has %s" % (en, sorted(rust_tags), sorted(model_tags)),
+                          no_input=True)
+    ctx.notes["tag_tables"] = tagrep
     ctx.notes["variant_values"] = {"constructed": len(vres), "failed": len(variant_fail),
                                    "debug_form_equal_to_original": sum(1 for d in vres if d.get("debug_equal"))}
     # ---- (c) malformed stream
@@ -459,7 +510,7 @@ def run(ctx):
     derived_names = set(trep.get("registered", {}).values()) | set(trep.get("tied_equal", []))
     ctx.notes["unmodelled_types"] = [t for t in unmodelled if t.split("::")[-1].split("<")[0].strip() not in derived_names]
     ctx.notes["modelled_types"] = len(S)
-    ctx.notes["unmodelled_variants"] = {"Payload": "tags 1,2 (InitContract, Update)", "UpdatePayload": "tag 1 (ProtocolUpdate)", "BlockItem": "none"}
+    ctx.notes["unmodelled_variants"] = {"Payload": "none (schema 53 has all 22 variants)", "UpdatePayload": "tag 1 (ProtocolUpdate: its last field is 'the rest of the frame')", "BlockItem": "none"}
     ctx.notes["byte_fuzz"] = fuzz_tab
     ctx.notes["fixed_findings"] = [f for f in kf.get("fixed", []) if "C05" in str(f)]
     ctx.cov["samples"] += [{"type": S[i], "input": h[:160], "origin": o, "impl": {k: (v[:160] if isinstance(v, str) else v) for k, v in (r or {}).items()},
